@@ -4,7 +4,7 @@ META = {
     "property": "C16",
     "level": "exploration",
     "rule": (
-        "case i of seed s is generated from default_rng([s, i]); i%4 selects the kind: "
+        "case i of seed s is generated from default_rng([s, i]); (i + i//16)%4 selects the kind: "
         "0 Field.to_vtk() looked up through an independent VTK cell locator "
         "(pyvista.find_containing_cell) at every cell centre and at random interior points; "
         "1 round trip through bin/txt/xml files of a random field (subregions in 30 % of "
@@ -14,7 +14,7 @@ META = {
         "sample files. Signature = (kind, nvdim, label class, validity class, subregions, "
         "value class, mesh signature); non-trivial when >= 2 directions have >= 2 cells."
     ),
-    "cases": {"quick": 240, "thorough": 8000},
+    "cases": {"quick": 400, "thorough": 12000},
     "workers": {"quick": 8, "thorough": 16},
     "timeout": {"quick": 600, "thorough": 5400},
     "deciding": [
@@ -228,6 +228,13 @@ def roundtrip(ctx, tmp, representable):
              "has_subregions": bool(boxes), "value_class": dtype}
     ctx.sample({"kind": "roundtrip", **what0})
     for rep in REPS:
+        if (rep == "txt" and boxes and not representable and ctx.thorough
+                and rng.random() >= 0.1):
+            # txt + subregions at non-representable coordinates is the known finding F23
+            # (no small repair); the thorough tier samples it instead of repeating it
+            # hundreds of times (per-worker witness store of the framework)
+            ctx.event("roundtrip.txt.subregions.skipped_known_F23_class")
+            continue
         fn = os.path.join(tmp, f"f_{rep}.vtk")
         what = {"representation": rep, **what0}
         try:
@@ -385,7 +392,7 @@ def samples(ctx, k):
 
 
 def run_case(ctx, i):
-    kind = i % 4
+    kind = ig.kind_of(i)
     if kind == 0:
         grid_lookup(ctx)
         return
